@@ -12,7 +12,10 @@ Inductive wop :=
 | WFind (v : Z) (obs : option Z)           (* observed: Some index / None = EWEIGHTNOTFOUND *)
 | WChoose (r : Z) (obs : Z)                (* observed: index, -1 = ENOWEIGHTSDEFINED, -2 = EWEIGHTNOTFOUND *)
 | WTop (obs : option Z)
-| WScale (obs : list (Z * Z)).
+| WScale (obs : list (Z * Z))
+(* CountriesAirportsRoutes.chooseTrip on a stored country: one weight vector per airport (the country's
+   own scale holds their totals), the two underlying draws, observed airport and route index *)
+| WTrip (aws : list (list Z)) (r1 r2 : Z) (obs_ap obs_rt : Z).
 
 Definition opt_eqb (a b : option Z) : bool :=
   match a, b with Some x, Some y => Z.eqb x y | None, None => true | _, _ => false end.
@@ -38,6 +41,11 @@ Definition wstep (s : scale) (o : wop) : scale * bool :=
   | WChoose r obs => (s, Z.eqb (choose_code (choose s r)) obs)
   | WTop obs => (s, opt_eqb (top_weight s) obs)
   | WScale obs => (s, scale_eqb s obs)
+  | WTrip aws r1 r2 oa ort =>
+      (s, match choose (of_weights (map (fun ws => fold_left Z.add ws 0) aws)) r1 with
+          | ChIndex a => Z.eqb a oa && Z.eqb (choose_code (choose (of_weights (nth (Z.to_nat a) aws [])) r2)) ort
+          | c => Z.eqb (choose_code c) oa
+          end)
   end.
 
 Fixpoint wrun (s : scale) (k : nat) (ops : list wop) : list nat :=
